@@ -5,7 +5,7 @@
 CONFIRM=""; if [ "$1" = "confirm" ]; then CONFIRM=confirm; shift; fi
 OUT=/verif/seeded/SWEEP.tsv
 for D in "$@"; do
-  D=${D%/}; N=$(basename $D)
+  D=$(readlink -f ${D%/}); N=$(basename $D)
   P=$(python3 -c "import json,sys;print(json.load(open('$D/meta.json'))['property'])" 2>/dev/null || true)
   [ -n "$P" ] || P=$(echo $N | sed -E 's/^(C[0-9]+).*/\1/')
   if [ -n "$CONFIRM" ]; then
